@@ -27,6 +27,7 @@ type Src interface {
 }
 
 type scriptMismatch struct{ msg string }
+type scriptExhausted struct{}
 
 type rapidSrc struct {
 	rt *rapid.T
@@ -66,7 +67,9 @@ type listSrc struct {
 
 func (s *listSrc) next(label string) any {
 	if s.pos >= len(s.draws) {
-		panic(scriptMismatch{fmt.Sprintf("script exhausted at draw %d (%s)", s.pos, label)})
+		// the saved script ends where the original run failed; running past it means the
+		// violation did not occur this time
+		panic(scriptExhausted{})
 	}
 	d := s.draws[s.pos]
 	s.pos++
